@@ -653,8 +653,21 @@ def rule_l4(chk: Check, ix: Index):
     chk.require(guard_ok, "L4-block-structure", "next_statement:dedent-consistency", ns.where,
                 "before a level is popped, a column that is not one of the currently open levels must raise (the test must consult "
                 "the stack of open levels, not a record of columns ever used)")
-    ne = ix.get("next_end_tokens")
-    yields = [norm_stmt(n) for n in own_nodes(ne.node) if isinstance(n, ast.Yield)]
+    # the end-of-input tokens: the function `next_end_tokens`, or — when it was folded into its only caller — the statements of
+    # `_tokenize` after the line loop
+    import types as _types_ne
+    ne = ix.funcs.get("next_end_tokens")
+    if ne is None:
+        tk0 = ix.get("_tokenize")
+        loop_i = next((i for i, st in enumerate(tk0.node.body) if isinstance(st, ast.While)), None)
+        tail = tk0.node.body[loop_i + 1:] if loop_i is not None else []
+        if not any("Token.ENDMARKER" in norm_stmt(st) for st in tail):
+            raise AnalysisError("anchor function vanished: next_end_tokens (and `_tokenize` does not emit the end tokens after its line loop)")
+        ne = _types_ne.SimpleNamespace(node=_types_ne.SimpleNamespace(body=tail), where=tk0.where, inlined=True)
+        ne_nodes = [n for st in tail for n in ast.walk(st)]
+    else:
+        ne_nodes = list(own_nodes(ne.node))
+    yields = [norm_stmt(n) for n in ne_nodes if isinstance(n, ast.Yield)]
     chk.count("L4-block-structure")
     fors = [n for n in ne.node.body if isinstance(n, ast.For)]
     PER_LEVEL = ("state.indents[1:]", "range(len(state.indents) - 1)", "range(1, len(state.indents))")
@@ -772,7 +785,8 @@ def rule_l4(chk: Check, ix: Index):
     tk = ix.get("_tokenize")
     chk.count("L4-block-structure")
     last = tk.node.body[-1]
-    chk.require(norm_stmt(last) == "yield from next_end_tokens(state)", "L4-block-structure", "_tokenize:tail", tk.where,
+    chk.require(norm_stmt(last) == "yield from next_end_tokens(state)" or (getattr(ne, "inlined", False) and "Token.ENDMARKER" in norm_stmt(last)),
+                "L4-block-structure", "_tokenize:tail", tk.where,
                 "the end tokens must be produced once, after the line loop")
 
 
